@@ -252,6 +252,9 @@ def replayer(ctx, mname, sleep, arrs, mask, goal):
 
 def main(tier, seed, only=None):
   units = [unit_model("actdim", True, False), unit_model("actdim", False, False), unit_model("delay", True, False), unit_model("actdim", True, True)]
+  from checks import resetk
+
+  units.append(resetk.unit_reset_nworld(PID))
   if only:
     units = [u for u in units if any(o in u[0] for o in only)]
   return report.run_check(PID, units, tier, seed)
